@@ -823,6 +823,10 @@ class Engine:
                         else: s.mem.store1(d + i, 1, c, gg); i += 1
                 return
             if nm.startswith('llvm.expect'): ret(A(0)); return
+            if nm.startswith(('llvm.returnaddress', 'llvm.frameaddress', 'llvm.addressofreturnaddress')):
+                ret(0x7f0000 + 16 * len(ctrl), 64); return      # opaque, distinct per call depth
+            if nm.startswith(('llvm.stacksave',)): ret(0, 64); return
+            if nm.startswith(('llvm.stackrestore',)): return
             if nm.startswith(('llvm.umax', 'llvm.umin', 'llvm.smax', 'llvm.smin')):
                 w = s.width(I.rty); op = nm.split('.')[1]; op = {'smax': 'max', 'smin': 'min'}.get(op, op)
                 ret(binop(op, A(0), A(1), w)); return
@@ -1001,7 +1005,25 @@ class Engine:
             extra = ''
             if nm == '__assert_fail': extra = ': ' + s.mem.cstring(A(0))
             s.add_check(g, '%s reached in %s%s' % (nm, f.name[:70], extra), 'assert'); return []
-        if nm == '__cxa_atexit': ret(0, 32); return
+        if nm in ('__cxa_atexit', '__cxa_thread_atexit', '__cxa_thread_atexit_impl'): ret(0, 32); return
+        if nm == 'pthread_key_create': s.mem.store(A(0), 4, 1, g, 'pthread_key_create'); ret(0, 32); return
+        if nm in ('pthread_setspecific', 'pthread_key_delete'): ret(0, 32); return
+        if nm == 'pthread_getspecific': ret(0, 64); return
+        if nm == 'pthread_once':
+            flag = A(0); cur = s.mem.load(flag, 4, g, 'pthread_once'); first = icmp('eq', cur, 0, 32)
+            s.mem.store(flag, 4, 2, gand(g, first), 'pthread_once')
+            fp = A(1)
+            if not isinstance(fp, int) or fp not in s.addr2f: raise EngineLimit('pthread_once with unresolved function')
+            out = []
+            g1 = gand(g, first)
+            if g1 is not False: out.append((((s.addr2f[fp], 0, 0),) + ctrl, name(g1), {}))
+            g0 = gand(g, gnot(first))
+            if g0 is not False:
+                if I.res is not None: s.setreg(f, I.res, 0, g, 32)
+                out.append((s.next_of(f, ctrl, I, g0), name(g0)))
+            if I.res is not None: s.setreg(f, I.res, 0, g, 32)
+            return out
+        if nm in ('syscall', 'gettid', 'getpid'): ret(4242, s.width(I.rty)); return
         if nm == '__cxa_guard_acquire':
             p = A(0); cur = s.mem.load(p, 1, g, 'guard'); ret(ite(icmp('eq', cur, 0, 8), 1, 0, 32), 32); return
         if nm == '__cxa_guard_release': s.mem.store(A(0), 1, 1, g, 'guard'); return
